@@ -480,7 +480,8 @@ var c04Mutators = []c04Mutator{
 		return op[:m[2]] + "Nope" + op[m[3]:], true
 	}},
 	{"conflict_across_object_types", func(r *rand.Rand, op string) (string, bool) { // a pure merging conflict when the parent is Account-typed
-		ins := "... on Admin { cf1: id } ... on User { cf1: id } ... on User { cf1: name } "
+		// (same declared type for both fields: a difference in type would be reported whatever the parent types are)
+		ins := "... on Admin { cf1: name } ... on User { cf1: name } ... on User { cf1: fullName } "
 		if i := strings.Index(op, "accounts { "); i >= 0 && r.Intn(4) != 0 {
 			j := i + len("accounts { ")
 			return op[:j] + ins + op[j:], true
